@@ -116,6 +116,9 @@ class Oracle:
         if op == "dim":
             self.dims[t[1]] = parse_dim(t[2])
             return None
+        if op == "dimfrom":
+            self.dims[t[1]] = parse_dim(t[3])
+            return None
         if op == "dset":
             ds = [self.dims[x] for x in t[2:]]
             if len({d[0] for d in ds}) == len(ds):
